@@ -26,4 +26,21 @@ theorem C16_faults (print : Bool) (f : OutFaults) (hreq : f.requested = true) :
 
 example : (outputStage true true { requested := true, created := true, written := false }).exit = 74 := by decide
 
+/-- with the listing's consumer gone (`--print` into a closed pipe) the program dies in `print!`
+    with status 101 whatever happened to the file; status 0 still implies a complete file -/
+theorem C16_stdout (found print : Bool) (f : OutFaults) (closed : Bool) (hreq : f.requested = true)
+    (h : (outputStage2 found print f closed).exit = 0) :
+    found = true ∧ f.created = true ∧ f.written = true ∧ (outputStage2 found print f closed).fileComplete = true := by
+  unfold outputStage2 at h ⊢
+  split at h
+  · simp at h
+  · rename_i hc
+    simp only [hc]
+    exact C16 found print f hreq h
+
+theorem C16_stdout_faults (f : OutFaults) (closed : Bool) (print : Bool) (hreq : f.requested = true)
+    (hb : f.created = false ∨ f.written = false) : (outputStage2 true print f closed).exit ≠ 0 := by
+  unfold outputStage2 outputStage
+  cases hc : f.created <;> cases hw : f.written <;> cases print <;> cases closed <;> simp_all [EX_CANTCREAT, EX_IOERR]
+
 end Props
